@@ -762,6 +762,37 @@ func (a *Analysis) ElementStores() []ElementStore {
 			}
 			return false, "a result of " + x.Tuple.Name()
 		case *ssa.Parameter:
+			// a helper that fills an object handed to it: fine when every caller in the module
+			// hands it an object of its own
+			fn := x.Parent()
+			idx := -1
+			for i, p := range fn.Params {
+				if p == x {
+					idx = i
+				}
+			}
+			node := a.CG.Nodes[fn]
+			if idx >= 0 && node != nil && len(node.In) > 0 && fn.Object() != nil && !fn.Object().Exported() {
+				all := true
+				for _, e := range node.In {
+					if e.Site == nil {
+						all = false
+						break
+					}
+					arg := argOf(e.Site.Common(), fn, idx)
+					if arg == nil {
+						all = false
+						break
+					}
+					if ok, _ := local(arg, seen); !ok {
+						all = false
+						break
+					}
+				}
+				if all {
+					return true, ""
+				}
+			}
 			return false, "parameter " + x.Name()
 		case *ssa.FreeVar:
 			return false, "captured variable " + x.Name()
